@@ -42,6 +42,11 @@ def length(r, lo, hi):
     return r.randint(lo, hi)
 
 
+def truthy(r, bits_):
+    """the same bit list with ON written as various truthy integers (ModbusStatus.On = 0xFF00, 1, 2, 17 ...) and OFF as 0"""
+    return [r.choice([1, 2, 4, 0x10, 17, 0xFF00]) if b else 0 for b in bits_]
+
+
 def bits(r, n):
     p = r.choice([0, 1, 2, 3])
     if p == 0:
